@@ -1,5 +1,7 @@
 SPECIFICATION Spec
 CONSTANTS Scenario <- MCScenario
+          Routines = 2
+          Queues = 1
           PreStart = 1
           MaxStops = 2
 INVARIANTS TypeOK
